@@ -77,7 +77,7 @@ def main():
         "engines": [
             {"name": "lean4-proof+go-correspondence", "path": "/verif/check",
              "serves_properties": [c["property_id"] for c in checks],
-             "kind_free_text": "Lean 4 model + kernel-checked theorems (lean/), data modules regenerated from /repo on every run (go/cmd/dump, go/cmd/facts), differential execution of the real Go package against the native Lean driver (go/cmd/harness), failing-input search, known-findings handling"},
+             "kind_free_text": "Lean 4 model + kernel-checked theorems (lean/), data modules regenerated from /repo on every run (go/cmd/dump, go/cmd/facts), differential execution of the real Go package against the native Lean driver (go/cmd/harness), order-independent probes of the untagged build (go/cmd/plainprobe), race-detector stress (go/cmd/racer), failing-input search, known-findings handling"},
         ],
         "checks": checks,
         "not_applicable": na,
